@@ -24,6 +24,7 @@ import Driver.C17
 import Driver.C18
 import Driver.C19
 import Driver.C20
+import Driver.SpecVec
 
 namespace Driver
 
@@ -32,7 +33,8 @@ def handlers : List (String × (String → List String → Option String)) :=
     ("c05.", C05.handle), ("c06.", C06.handle), ("c07.", C07.handle), ("c08.", C08.handle),
     ("c09.", C09.handle), ("c10.", C10.handle), ("c11.", C11.handle), ("c12.", C12.handle),
     ("c13.", C13.handle), ("c14.", C14.handle), ("c15.", C15.handle), ("c16.", C16.handle),
-    ("c17.", C17.handle), ("c18.", C18.handle), ("c19.", C19.handle), ("c20.", C20.handle) ]
+    ("c17.", C17.handle), ("c18.", C18.handle), ("c19.", C19.handle), ("c20.", C20.handle),
+    ("sv.", SpecVec.handle) ]
 
 def dispatch (line : String) : String :=
   match line.splitOn "\t" with
